@@ -447,6 +447,10 @@ func (ex *Explorer) runPath(prefix []int64) {
 					msg = fmt.Sprintf("%v", v.T)
 				}
 			}
+			if ctx.curFrame != nil && ctx.curFrame.cur != nil {
+				pos := ctx.curFrame.fn.Prog.Fset.Position(ctx.curFrame.cur.Pos())
+				msg += fmt.Sprintf(" [in %s %s:%d]", ctx.curFrame.fn.Name(), pos.Filename[strings.LastIndex(pos.Filename, "/")+1:], pos.Line)
+			}
 			ex.Panics[msg]++
 		case solverTimeout:
 			ex.Unknown++
